@@ -370,6 +370,28 @@ def _core_identities(task):
         chk('Ktrace', rel['Ktrace'], np.einsum('ij...,ij...->...', gi_ref,
                                                K_), scale=sK * 10)
         chk('tracefree3', rel.tracefree3(K_), Ad, use_cond=False)
+        # the helpers take any rank-2 tensor, not only symmetric ones
+        anti = np.array([[0.0, 0.4, -0.7], [-0.4, 0.0, 1.1],
+                         [0.7, -1.1, 0.0]]).reshape((3, 3, 1, 1, 1))
+        Fns = K_ + anti * (1.0 + np.abs(K_).max(axis=(0, 1)))
+        trF = np.einsum('ij...,ij...->...', gi_ref, Fns)
+        sF = 10 * (1 + np.abs(Fns).max(axis=(0, 1)))
+        chk('trace3(non-symmetric)', rel.trace3(Fns), trF, scale=sF * 10)
+        tfF = rel.tracefree3(Fns)
+        chk('tracefree3(non-symmetric) trace-free',
+            np.einsum('ij...,ij...->...', gi_ref, tfF), 0.0, scale=sF * 10)
+        chk('tracefree3(non-symmetric)', tfF, Fns - g_ * trF / 3.0,
+            scale=sF * 10)
+        F4 = np.zeros((4, 4) + shape)
+        F4[1:, 1:] = Fns
+        F4[0, 1:] = np.array([0.3, -0.2, 0.5]).reshape(
+            (3, 1, 1, 1)) * np.ones(shape)
+        F4[1:, 0] = np.array([-0.1, 0.6, 0.2]).reshape(
+            (3, 1, 1, 1)) * np.ones(shape)
+        F4[0, 0] = 0.9
+        chk('trace4(non-symmetric)', rel.trace4(F4),
+            np.einsum('ab...,ab...->...', rel['gup4'], F4),
+            scale=1e3 * (1 + np.abs(b).max() ** 2) * sF)
         chk('A2=1/2 A_ij A^ij', rel['A2'],
             0.5 * np.einsum('ij...,ij...->...', Ad, Au), scale=sK ** 2)
         # conformal quantities
